@@ -360,6 +360,10 @@ func (g *Gen) jobj(depth int) *Sexp {
 }
 
 func runC16(r *Runner, g *Gen, tier string) string {
+	// concurrent Marshal of JSON-any values of different lengths: each result is the lone caller's
+	for k := 0; k < 3; k++ {
+		r.Do(L(A("jconc"), A(fmt.Sprint(scale(tier, 4000, 60000)))), true, "jconc")
+	}
 	n := scale(tier, 3000, 600000)
 	for i := 0; i < n; i++ {
 		d := 1 + g.r.Intn(5)
